@@ -5,6 +5,7 @@ CONSTANTS
   Epoch = 4
   InitNumber = 4
   InitSet = {1, 2, 3}
+  InitAnn = {1, 2, 3}
   InitSigner = 2
   MaxNumber = 1000
   UpgradeSets = {{1, 2, 3}, {2, 4, 5, 6, 7}, {3}, {4, 5, 6}}
